@@ -27,6 +27,7 @@ def run(ctx):
     ctx.rule("C15.2", "index maintenance in commit is fed by property sets/removals AND label additions/removals AND node deletions")
     ctx.rule("C15.3", "index updates in commit do not discard errors")
     ctx.rule("C15.4", "IndexSeek plans are re-filtered; execute_index_seek exits only via lookup or fallback")
+    ctx.rule("C15.5", "every update of an index root in the catalog is followed by IndexCatalog::flush before the transaction's CommitTx record")
 
     b = ctx.body(CREATE_INDEX)
     path = F.reaches(CREATE_INDEX, INSERTERS)
@@ -104,3 +105,50 @@ def run(ctx):
     ctx.instance("C15.4", "execute_index_seek exits via %d lookup/fallback/error sites" % len(exits))
     ctx.oblige(not rets and len(exits) >= 3, "C15.4", "execute_index_seek:exit-without-lookup-or-fallback",
                "execute_index_seek can return rows that come neither from the index lookup nor from the fallback scan", sb.file)
+
+    # ---- clause 5 ---------------------------------------------------------
+    INDEXDEF = "nervusdb_storage::index::catalog::IndexDef"
+    FLUSH = "nervusdb_storage::index::catalog::IndexCatalog::flush"
+    flushes = [c.bb for c in cb.calls() if c.name == FLUSH]
+    commits = [c.bb for c in cb.calls() if c.name == M.WAL_APPEND and M.wal_append_variant(cb, c) == "CommitTx"]
+    roots = []
+    for bi, blk in enumerate(cb.blocks):
+        for st in blk["s"]:
+            if st[0] == "a" and any(isinstance(p_, list) and p_[0] == "f" and p_[2] == "root" and p_[3] == INDEXDEF for p_ in st[1][1]):
+                roots.append((bi, st[3]))
+    ctx.floor("C15.5", "index root updates in commit", len(roots), 3)
+    for k, (bi, line) in enumerate(roots):
+        seen = cb.reachable([bi], avoid=set(flushes) | paths.fail_blocks(cb))
+        bad = [c for c in commits if c in seen]
+        if bad and flushes:
+            # accepted idiom: the flush is guarded by a boolean flag that this path has set to true
+            from ..mirutil import value_root
+            guards = []
+            for sb in range(len(cb.blocks)):
+                tt = cb.term(sb)
+                if tt[0] != "switch" or tt[4] != "bool":
+                    continue
+                arms = [tb for _, tb in tt[2]] + [tt[3]]
+                reach = [any(f in cb.reachable([a]) for f in flushes) for a in arms]
+                if any(reach) and not all(reach):
+                    lv = op_local(tt[1])
+                    if lv is not None:
+                        guards.append((sb, value_root(cb, lv)))
+            if guards:
+                ok_all = True
+                for sb, flag in guards:
+                    if sb not in seen:
+                        continue
+                    setters = set()
+                    for x, blk2 in enumerate(cb.blocks):
+                        for st2 in blk2["s"]:
+                            if st2[0] == "a" and st2[1][0] == flag and not st2[1][1] and st2[2][0] == "use" and st2[2][1][0] == "k" and st2[2][1][1].get("v") == 1:
+                                setters.add(x)
+                    if sb in cb.reachable([bi], avoid=setters - {bi}) and bi not in setters:
+                        ok_all = False
+                if ok_all:
+                    bad = []
+        ctx.instance("C15.5", "commit: root update #%d flushed before CommitTx=%s" % (k, not bad))
+        ctx.oblige(not bad and flushes, "C15.5", "commit:root-update#%d-not-flushed" % k,
+                   "an index root moved in memory can reach the commit record without the catalog page being rewritten: after reopen the catalog "
+                   "names the pre-split root and equality lookups return a strict subset", "%s:%d" % (cb.file, line))
